@@ -288,6 +288,165 @@ fn edge_tagged<const N: usize>(t: &Value, line: usize, rep: &mut Report) {
     finish(t, line, fails, rep);
 }
 
+/// Lookups through an UNSIZED borrowed form whose equality is coarser than its bytes (C01 / C07:
+/// "lookups through a borrowed form of the key answer exactly like lookups by the key itself"):
+/// keys are `PathBuf`s, the probe is a `&Path` that spells the same path with a doubled separator
+/// (equal component-wise, different length).
+fn dst_key(c: u8) -> std::path::PathBuf {
+    std::path::PathBuf::from(format!("k{c}/x"))
+}
+fn dst_probe(c: u8) -> std::path::PathBuf {
+    std::path::PathBuf::from(format!("k{c}//x/"))
+}
+fn dst_class(k: &std::path::Path) -> u8 {
+    k.components().next().and_then(|c| c.as_os_str().to_str()).and_then(|s| s[1..].parse().ok()).unwrap_or(255)
+}
+fn edge_dst<const N: usize>(t: &Value, line: usize, rep: &mut Report) {
+    use std::path::{Path, PathBuf};
+    let op = &t["o"];
+    let name = op["name"].as_str().unwrap();
+    if !matches!(name, "get" | "get_key_value" | "contains_key" | "get_mut" | "index" | "index_mut" | "remove" | "remove_entry") {
+        return;
+    }
+    let mut fails: Vec<Fail> = vec![];
+    let mut cage = Cage::new(Map::<PathBuf, u8, N>::new());
+    for e in t["s"].as_array().unwrap() {
+        cage.m.insert(dst_key(e[0].as_u64().unwrap() as u8), e[2].as_u64().unwrap() as u8);
+    }
+    let c = op["c"].as_u64().unwrap_or(0) as u8;
+    let w = op["w"].as_i64().unwrap_or(99);
+    let owned = dst_probe(c);
+    let probe: &Path = owned.as_path();
+    let m = &mut cage.m;
+    let mut allocs = 0u64;
+    let obs: Value = match name {
+        "get" => match measured(&mut allocs, || m.get(probe).copied()) {
+            None => json!(["panic"]),
+            Some(None) => json!(["none"]),
+            Some(Some(v)) => json!(["val", v]),
+        },
+        "get_key_value" => match measured(&mut allocs, || m.get_key_value(probe).map(|(k, v)| (dst_class(k), *v))) {
+            None => json!(["panic"]),
+            Some(None) => json!(["none"]),
+            Some(Some((k, v))) => json!(["ent", k, v]),
+        },
+        "contains_key" => match measured(&mut allocs, || m.contains_key(probe)) {
+            None => json!(["panic"]),
+            Some(b) => json!(["b", b]),
+        },
+        "get_mut" => match measured(&mut allocs, || {
+            m.get_mut(probe).map(|v| {
+                let o = *v;
+                if w != 99 {
+                    *v = w as u8;
+                }
+                o
+            })
+        }) {
+            None => json!(["panic"]),
+            Some(None) => json!(["none"]),
+            Some(Some(v)) => json!(["val", v]),
+        },
+        "index" => match measured(&mut allocs, || m[probe]) {
+            None => json!(["panic"]),
+            Some(v) => json!(["val", v]),
+        },
+        "index_mut" => match measured(&mut allocs, || {
+            let v = &mut m[probe];
+            let o = *v;
+            if w != 99 {
+                *v = w as u8;
+            }
+            o
+        }) {
+            None => json!(["panic"]),
+            Some(v) => json!(["val", v]),
+        },
+        "remove" => match measured(&mut allocs, || m.remove(probe)) {
+            None => json!(["panic"]),
+            Some(None) => json!(["none"]),
+            Some(Some(v)) => json!(["val", v]),
+        },
+        _ => match measured(&mut allocs, || m.remove_entry(probe)) {
+            None => json!(["panic"]),
+            Some(None) => json!(["none"]),
+            Some(Some((k, v))) => json!(["ent", dst_class(&k), v]),
+        },
+    };
+    let exp = content_of(&t["r"]);
+    if obs != exp {
+        fails.push(Fail {
+            props: crate::replay::op_props(op, false, &t["r"]),
+            msg: format!("[PathBuf keys looked up by an equal &Path of another length] return value: observed {obs}, the model says {exp}"),
+        });
+    }
+    let mut post: Vec<(u8, u8)> = cage.m.iter().map(|(k, v)| (dst_class(k), *v)).collect();
+    post.sort();
+    if post != post_of(&t["p"]) {
+        fails.push(Fail {
+            props: crate::replay::op_props(op, false, &t["r"]),
+            msg: format!("[PathBuf keys looked up by an equal &Path of another length] content afterwards: observed {post:?}, the model says {:?}", post_of(&t["p"])),
+        });
+    }
+    finish(t, line, fails, rep);
+}
+fn edge_dst_set<const N: usize>(t: &Value, line: usize, rep: &mut Report) {
+    use std::path::{Path, PathBuf};
+    let op = &t["o"];
+    let name = op["name"].as_str().unwrap();
+    if !matches!(name, "s_contains" | "s_get" | "s_remove" | "s_take") {
+        return;
+    }
+    let mut fails: Vec<Fail> = vec![];
+    let mut cage = Cage::new(Set::<PathBuf, N>::new());
+    for e in t["s"].as_array().unwrap() {
+        cage.m.insert(dst_key(e[0].as_u64().unwrap() as u8));
+    }
+    let c = op["c"].as_u64().unwrap_or(0) as u8;
+    let owned = dst_probe(c);
+    let probe: &Path = owned.as_path();
+    let m = &mut cage.m;
+    let mut allocs = 0u64;
+    let obs: Value = match name {
+        "s_contains" => match measured(&mut allocs, || m.contains(probe)) {
+            None => json!(["panic"]),
+            Some(b) => json!(["b", b]),
+        },
+        "s_get" => match measured(&mut allocs, || m.get(probe).map(|k| dst_class(k))) {
+            None => json!(["panic"]),
+            Some(None) => json!(["none"]),
+            Some(Some(k)) => json!(["key", k]),
+        },
+        "s_remove" => match measured(&mut allocs, || m.remove(probe)) {
+            None => json!(["panic"]),
+            Some(b) => json!(["b", b]),
+        },
+        _ => match measured(&mut allocs, || m.take(probe)) {
+            None => json!(["panic"]),
+            Some(None) => json!(["none"]),
+            Some(Some(k)) => json!(["key", dst_class(&k)]),
+        },
+    };
+    let exp = content_of(&t["r"]);
+    if obs != exp {
+        fails.push(Fail {
+            props: crate::replay::op_props(op, false, &t["r"]),
+            msg: format!("[PathBuf elements looked up by an equal &Path of another length] return value: observed {obs}, the model says {exp}"),
+        });
+    }
+    let mut post: Vec<u8> = cage.m.iter().map(|k| dst_class(k)).collect();
+    post.sort();
+    let mut want: Vec<u8> = t["p"].as_array().unwrap().iter().map(|e| e[1].as_u64().unwrap() as u8).collect();
+    want.sort();
+    if post != want {
+        fails.push(Fail {
+            props: crate::replay::op_props(op, false, &t["r"]),
+            msg: format!("[PathBuf elements looked up by an equal &Path of another length] content afterwards: observed {post:?}, the model says {want:?}"),
+        });
+    }
+    finish(t, line, fails, rep);
+}
+
 /// the same for sets of plain tagged elements; every other extend goes through `impl Extend<&T>`
 fn edge_tagged_set<const N: usize>(t: &Value, line: usize, rep: &mut Report) {
     let op = &t["o"];
@@ -822,6 +981,7 @@ pub fn run_shapes(table: &Table, set_mode: bool, rep: &mut Report) -> std::colle
             go!(Heap, edge_set_h, t, idx, n);
             go!(Large, edge_set_l, t, idx, n);
             crate::replay::with_n!(n, edge_tagged_set, t, idx, rep);
+            crate::replay::with_n!(n, edge_dst_set, t, idx, rep);
         } else {
             go!(Zst, edge_map_z, t, idx, n);
             go!(SmallCopy, edge_map_sc, t, idx, n);
@@ -831,6 +991,7 @@ pub fn run_shapes(table: &Table, set_mode: bool, rep: &mut Report) -> std::colle
             go!(PlainKeyOwnedVal, edge_map_pk, t, idx, n);
             go!(OwnedKeyPlainVal, edge_map_ok, t, idx, n);
             crate::replay::with_n!(n, edge_tagged, t, idx, rep);
+            crate::replay::with_n!(n, edge_dst, t, idx, rep);
         }
         *rep.op_counts.entry(crate::replay::op_label(&t["o"])).or_insert(0) += 1;
         rep.distinct_states.insert(format!("{n}:{}", t["s"]));
